@@ -154,6 +154,10 @@ pub mod ax {
                 let b = (super::stdspec::rsplit_once_spec::<char>(s, c)->0).1;
                 s == a + seq![c] + b && !b.contains(c)
             };
+//# section: ax-as-deref-rc
+    // TRUSTED: Option<Rc<T>>::as_deref borrows the shared value (Rc's Deref)
+    pub broadcast axiom fn as_deref_rc<T>(o: &Option<Rc<T>>)
+        ensures #[trigger] super::stdspec::as_deref_spec::<Rc<T>>(o) == (match *o { Some(rc) => Some(&*rc), None => None });
 //# section: ax-end
 }
 //# section: stdspec-begin
